@@ -7,7 +7,7 @@ HARNESS_TEST = "TestC08.*"
 COQ_MODEL = ["C08/Check.v", "Gen/C08Facts.v"]
 COQ_PROOF_DEPS = ["C08/Proofs.v"]
 COQ_OBLIG = ["C08/Property.v", "Gen/C08Oblig.v"]
-CASES_HEADER = "Require Import Nib.C08.Model Nib.C08.Spec Nib.C08.Check Nib.Gen.C08Facts.\nOpen Scope Z_scope."
+CASES_HEADER = "Require Import Nib.C08.Model Nib.C08.Spec Nib.C08.Check Nib.Gen.C08Facts."
 CASE_TYPE = "case"
 MISMATCH_FN = "mismatch current_facts"
 VIOLATES_FN = "violates current_facts"
@@ -38,11 +38,11 @@ _CLASS = {"ok": "Ok", "err": "Err", "oog": "OutOfGas", "panic": "Panic"}
 
 
 def _z(n):
-    return "(%d)" % int(n)
+    return "(%d)%%Z" % int(n)
 
 
 def _bytes(bs):
-    return "[" + "; ".join(str(int(b)) for b in bs) + "]"
+    return "[" + "; ".join(str(int(b)) for b in bs) + "]%Z"
 
 
 def _funds(fs):
@@ -76,7 +76,7 @@ def to_coq_case(rec):
     unpack = "None"
     if o["unpack_ok"]:
         unpack = "(Some [%s])" % "; ".join(_arg(a) for a in o["args"])
-    inp = "{| i_len := %d; i_head := %s; i_unpack := %s |}" % (len(data), _bytes(data[:4]), unpack)
+    inp = "{| i_len := (%d)%%Z; i_head := %s; i_unpack := %s |}" % (len(data), _bytes(data[:4]), unpack)
     pc = _PC[i["pc"] if 0 <= i["pc"] <= 2 else 0]
     value = int(i["value"]) if i["kind"] in ("top", "call", "callcode") else 0
     return ("{| c_reached := %s; c_pc := %s; c_kind := %s; c_value := %s; c_gas := %s; c_inp := %s; "
